@@ -514,6 +514,11 @@ func judgeError(r *mon.Run, c call, cas any) {
 		r.Violate("internal-failure", key("code 1"), fmt.Sprintf("%s answered with the internal 'runtime failure' code for %q", c.Entry, mon.Trunc(c.Text, 120)), cas)
 		return
 	}
+	if v.Code == int(errs.ErrLoader) {
+		// "Loader error" (801) is the loader's catch-all for a lexeme it does not expect there: unhelpful, but a coded,
+		// positioned diagnostic that the untouched library gives for malformed annotation bodies - counted, not raised
+		r.Count("loader_error_801_diagnostics", 1)
+	}
 	if knownCodes != nil && !knownCodes[v.Code] {
 		r.Violate("unknown-code", key(strconv.Itoa(v.Code)), fmt.Sprintf("%s answered with code %d, which package errs does not define", c.Entry, v.Code), cas)
 	}
